@@ -120,7 +120,7 @@ def std_match(a, b):
 
 # ---- typed values: (kind, payload); kind in sl / slv / uns / str (bit-string literal) / bool / int
 class Interp:
-    def __init__(self, elab, max_delta=2000, case_merge=False):
+    def __init__(self, elab, max_delta=2000, case_merge=False, mem_exact_merge=False, port_reg_init=False):
         self.e = elab
         self.max_delta = max_delta
         # case_merge=True is NOT VHDL semantics: a CASE whose selector contains a metavalue merges all
@@ -129,6 +129,15 @@ class Interp:
         self.case_merge = case_merge
         self.case_merged = 0
         self.cur_cycle = 0
+        # The next two switches are NOT VHDL semantics either; like case_merge they exist only to CLASSIFY a mismatch as one
+        # of the recorded known findings, by showing that it disappears when exactly that one deviation is removed:
+        #  mem_exact_merge: memory(to_integer(a)) with a metavalue in `a` merges all candidate words bit-wise (what the
+        #                   reference simulator does for UndefinedReadAddrBehavior::EXACT) instead of reading word 0
+        #  port_reg_init:   a register whose output is assigned directly to an OUT port of a sub-entity (so that no SIGNAL
+        #                   declaration can carry its `:= reset value` default) starts with the reset value of its reset branch
+        self.mem_exact_merge = mem_exact_merge
+        self.mem_merged = 0
+        self.port_regs = []        # (net id, edge kind) of the registers concerned (filled for every interpreter)
         self.val = []
         for n in elab.nets:
             if n.ty[0] == "array":      # memory: tuple of words, index = address
@@ -153,6 +162,31 @@ class Interp:
         self.deltas = 0
         self.warn_stale = []
         self.initialised = False
+        self._find_port_regs(apply=port_reg_init)
+
+    def _find_port_regs(self, apply):
+        from C02_vhdl_lift import classify_clocked
+        from C02_vhdl import literal_bits
+        for p in self.e.procs:
+            if p.sens is None:
+                continue
+            try:
+                c = classify_clocked(p)
+            except (Unsupported, LiftError):
+                continue
+            for st in c["reset_body"]:
+                if st[0] != "sassign":
+                    continue
+                o = p.scope.lookup(st[1])
+                if isinstance(o, AliasNet) and o.dir == "out" and base_net(o).init is None and base_net(o).port is None:
+                    try:
+                        v = literal_bits(st[2], o.ty)
+                    except Unsupported:
+                        continue
+                    self.port_regs.append((base_net(o).id, c["edge"]))
+                    if apply:
+                        self.val[base_net(o).id] = v
+                        self.last[base_net(o).id] = v
 
     # -- kernel
     def initialise(self):
@@ -386,6 +420,17 @@ class Interp:
             if i[0] != "int":
                 raise LiftError("array index is not an integer")
             words = self.val[base_net(o).id]
+            ia = strip_paren(e[2])
+            if self.mem_exact_merge and ia[0] == "call" and ia[1] == "to_integer":
+                av = self.ev(ia[2][0], p, ("uns", 0, 0))
+                if av[0] == "uns" and has_meta(av[1]):
+                    a01 = to_x01(av[1])
+                    cand = [k for k in range(len(words)) if all(c == "X" or c == b for c, b in zip(a01, format(k, "0%db" % len(a01))))] \
+                        if (1 << len(a01)) >= len(words) else list(range(len(words)))
+                    self.mem_merged += 1
+                    ws = [to_x01(words[k]) for k in cand]
+                    merged = "".join(c[0] if (c[0] in "01" and all(x == c[0] for x in c)) else "X" for c in zip(*ws)) if ws else "X" * type_width(o.ty[2])
+                    return (o.ty[2][0], merged)
             if not (0 <= i[1] < len(words)):
                 raise VhdlRuntimeError(f"index {i[1]} out of range {len(words) - 1} downto 0 reading {b[1]}")
             return (o.ty[2][0], words[i[1]])
@@ -596,13 +641,13 @@ def parse_htraces(path):
     return res
 
 
-def replay_trace(elab, tr, clock_names=("sysclk",), reset_names=("reset",), reset_active="1", case_merge=False, stats=None, meta=None):
+def replay_trace(elab, tr, clock_names=("sysclk",), reset_names=("reset",), reset_active="1", case_merge=False, stats=None, meta=None, opts=None):
     """tr: circ.parse_traces entry (one sample per period, events E e R1 R0) or parse_htraces entry (one sample per HALF
     period, events E e R1@port R0@port, `meta` naming the exported clock / reset ports).  The clock edges and reset levels
     of the real simulator's event log are applied to the VHDL ports in the recorded order; whether a register reacts to a
     given edge is decided by the exported text (rising_edge / falling_edge / 'event), not by the replay.
     Returns None or dict(cycle=, pin=, expected=, observed=, ...)"""
-    it = Interp(elab, case_merge=case_merge)
+    it = Interp(elab, case_merge=case_merge, **(opts or {}))
     ports = {pn: (d, n) for pn, d, n in elab.top_ports}
     meta = tr.get("meta") or meta or {}      # period traces carry no port names: the caller passes the design's .meta
     if meta.get("clkport", "-") != "-":
@@ -704,10 +749,10 @@ def parse_testbench(text):
     return dict(init=init, clocks=clocks)
 
 
-def replay_testvectors(elab, tv_text, tb_text, case_merge=False):
+def replay_testvectors(elab, tv_text, tb_text, case_merge=False, opts=None):
     """-> dict(checks=n, failed=[...first few...], sets=n)"""
     tb = parse_testbench(tb_text)
-    it = Interp(elab, case_merge=case_merge)
+    it = Interp(elab, case_merge=case_merge, **(opts or {}))
     ports = {pn: (d, n) for pn, d, n in elab.top_ports}
     for nm, c in tb["init"].items():
         if nm in ports:
@@ -776,4 +821,7 @@ def replay_testvectors(elab, tv_text, tb_text, case_merge=False):
                         upd[n.id] = value
         it.apply(upd)
     res["deltas"] = it.deltas
+    res["clock_half_periods_ps"] = {c: h // 1000 for c, h in tb["clocks"].items()}
+    res["clock_init"] = {c: tb["init"].get(c, "U") for c in tb["clocks"]}
+    res["port_regs"] = list(it.port_regs)
     return res
